@@ -25,7 +25,9 @@ Emit == ~done \/ PrintT("@@CHAIN|" \o ToJson(chain))
 
 AllMethods == {"Str", "Strs", "Bytes", "Hex", "Bool", "Bools", "Int", "Ints", "Int8", "Ints8", "Int16", "Ints16", "Int32", "Ints32", "Int64", "Ints64",
                "Uint", "Uints", "Uint8", "Uints8", "Uint16", "Uints16", "Uint32", "Uints32", "Uint64", "Uints64", "Float32", "Floats32", "Float64", "Floats64",
-               "Time", "Times", "Dur", "Durs", "TimeDiff", "Timestamp", "Err", "AnErr", "Dict", "Array", "ArrayM", "Object", "EmbedObject", "RawJSON", "Type", "Func"}
+               "Time", "Times", "Dur", "Durs", "TimeDiff", "Timestamp", "Err", "AnErr", "Dict", "Array", "ArrayM", "Object", "EmbedObject", "RawJSON", "Type", "Func",
+               \* the same methods with empty / nil arguments ("all argument values")
+               "ArrayEmpty", "DictEmpty", "StrsEmpty", "IntsNil", "BytesEmpty", "StrEmpty", "ErrNil", "TimesEmpty"}
 \* ArrayM: Array with a pointer LogArrayMarshaler (the temporary *Array comes from and returns to the pool inside the call)
 \* methods that take an object from a pool (and must give it back, also when the event is filtered)
 Pooled == {"Dict", "Array"}
